@@ -6,7 +6,7 @@
    `contract_ok pol l` is the documented usage contract of the single-block policies (reusable_storage,
    placement_alloc, reusable_buffer_storage: one live frame at a time, placement memory large enough); it holds
    for every history of default / mtsafe / stack storage (c19_contract_free). *)
-From Cocls Require Import Base BaseProofs StorageDefs StorageProofs.
+From Cocls Require Import Base BaseProofs StorageDefs StorageProofs StorageMtProofs.
 Local Open Scope Z_scope.
 
 Theorem c19_contract_free : forall pol l, contract_free pol = true -> contract_ok pol l = true.
@@ -78,11 +78,12 @@ Theorem c19_mt_exclusive : forall ops s i j fi fj, mt_reach ops s ->
 Proof. exact mt_exclusive. Qed.
 Print Assumptions c19_mt_exclusive.
 
+(* `ngrow` counts threads paused inside reusable_storage::alloc between `delete _ptr` and `_ptr = new` (busy_n), where _ptr dangles *)
 Theorem c19_mt_one_holder : forall ops s, mt_reach ops s ->
   nwon (c_thr s) + sumw trw (frs (c_core s)) = b2z (s_busy (st (c_core s))) /\
   forall i f, In (i, f) (frs (c_core s)) ->
-    if f_tr f then f_blk f = optblk (s_ptr (st (c_core s)))
-    else exists b, f_blk f = BHeap b /\ s_ptr (st (c_core s)) <> Some b.
+    if f_tr f then ngrow (c_thr s) = 0 /\ f_blk f = optblk (s_ptr (st (c_core s)))
+    else exists b, f_blk f = BHeap b /\ (ngrow (c_thr s) = 0 -> s_ptr (st (c_core s)) <> Some b).
 Proof. exact mt_one_holder. Qed.
 Print Assumptions c19_mt_one_holder.
 
@@ -94,10 +95,17 @@ Print Assumptions c19_mt_size_valid.
 Theorem c19_mt_freed_once : forall ops s, mt_reach ops s ->
   let h := hp (c_core s) in
   h_bad h = 0 /\ h_allocs h - h_frees h = zlen (h_live h) /\
-  zlen (h_live h) = nsown PMts (st (c_core s)) + sumw (owns PMts) (frs (c_core s)) /\
-  (frs (c_core s) = [] -> let h1 := hp (destroy pm (c_core s)) in h_live h1 = [] /\ h_allocs h1 = h_frees h1 /\ h_bad h1 = 0).
+  zlen (h_live h) = nsown PMts (eff (c_thr s) (st (c_core s))) + sumw (owns PMts) (frs (c_core s)) /\
+  (frs (c_core s) = [] -> nwon (c_thr s) = 0 ->
+   let h1 := hp (destroy pm (c_core s)) in h_live h1 = [] /\ h_allocs h1 = h_frees h1 /\ h_bad h1 = 0).
 Proof. exact mt_freed_once. Qed.
 Print Assumptions c19_mt_freed_once.
+
+(* liveness: under every schedule every thread completes its program: nobody waits for _busy, nobody stays inside alloc *)
+Theorem c19_mt_all_done : forall ops,
+  Forall (fun t => t_prog t = [] /\ t_won t = None) (c_thr (fst (mt_final ops))).
+Proof. exact mt_all_done. Qed.
+Print Assumptions c19_mt_all_done.
 
 (* the state the wire-level runner ends in is one of those states, whatever the schedule *)
 Theorem c19_mt_run_covered : forall ops, mt_reach ops (fst (mt_final ops)).
